@@ -285,8 +285,10 @@ func runC16(r *simrt.Run, tier Tier) Outcome {
 				r.Fault("rejected-definition")
 			}
 		case "load":
-			model.defines = nil // ::load first discards the interactive buffer
 			if err == nil {
+				// a successful ::load discards the interactive definitions; a
+				// rejected one is a rejected command and changes nothing
+				model.defines = nil
 				model.loads = append(model.loads, c.Arg)
 				okCmds++
 			} else {
